@@ -31,7 +31,13 @@ func main() {
 	in, out := os.Args[1], os.Args[2]
 	swapSync := len(os.Args) > 3 && os.Args[3] == "sync"
 	fset := token.NewFileSet()
-	f, err := parser.ParseFile(fset, in, nil, 0)
+	// the sync mode only touches the import spec: keep comments, so that compiler directives
+	// (//go:embed in syntax/bindata.go) survive
+	mode := parser.Mode(0)
+	if swapSync {
+		mode = parser.ParseComments
+	}
+	f, err := parser.ParseFile(fset, in, nil, mode)
 	if err != nil {
 		panic(err)
 	}
